@@ -18,6 +18,7 @@
 #include <glm/gtc/type_precision.hpp>
 using namespace vh;
 static bool g_thorough = false;
+static size_t g_reps = 36;     // windows per (function, shape) in the quick tier; 'small' mode (cross-configuration runs) uses fewer
 static Rng* g_rng = nullptr;
 
 template<class X> struct is_vec : std::false_type {};
@@ -65,7 +66,7 @@ template<int L, class T, glm::qualifier Q> glm::vec<L, T, Q> win(std::vector<T> 
 
 // run `body(lengthTag, qualifierTag, k)` over L = 1..4, the three qualifiers and a number of windows
 template<class T, class B> void sweep(size_t nvals, B body) {
-    size_t reps = g_thorough ? nvals : std::min<size_t>(nvals, 36);
+    size_t reps = g_thorough ? nvals : std::min<size_t>(nvals, g_reps);
     size_t step = std::max<size_t>(1, nvals / reps);
     for (size_t k = 0; k < nvals; k += step) {
         switch (k / step % 3) {
@@ -117,7 +118,9 @@ template<int K, class T, class F> void tern(const char* f, std::vector<T> const&
 
 template<class T> void float_funcs() {
     auto S = special<T>(); auto M = moderate<T>(); auto U = unit<T>(); auto P = positive<T>();
-    std::vector<T> GE1; for (T p : P) GE1.push_back(T(1) + p); std::vector<T> AB1; for (T u : U) if (u != T(0)) AB1.push_back(T(1) / u); AB1.push_back(T(1)); AB1.push_back(T(-1)); AB1.push_back(T(2.5));
+    std::vector<T> GE1; for (T p : P) if (T(1) + p > T(1)) GE1.push_back(T(1) + p);                       // strictly above 1 (acosh, acoth, upper clamp bounds)
+    std::vector<T> AB1; for (T u : U) if (u != T(0)) AB1.push_back(T(1) / u); AB1.push_back(T(1)); AB1.push_back(T(-1)); AB1.push_back(T(2.5));
+    std::vector<T> UO; for (T u : U) if (u > T(-1) && u < T(1)) UO.push_back(u);                                               // open interval (atanh has poles at +-1) std::vector<T> AB1; for (T u : U) if (u != T(0)) AB1.push_back(T(1) / u); AB1.push_back(T(1)); AB1.push_back(T(-1)); AB1.push_back(T(2.5));
     // common: selection / rounding / classification  (identical results required, on the whole special-value lattice)
     un<T>("abs", S, F1(abs)); un<T>("sign", S, F1(sign)); un<T>("floor", S, F1(floor)); un<T>("ceil", S, F1(ceil)); un<T>("trunc", S, F1(trunc)); un<T>("round", S, F1(round));
     un<T>("roundEven", S, F1(roundEven)); un<T>("fract", S, F1(fract)); un<T>("isnan", S, F1(isnan)); un<T>("isinf", S, F1(isinf));
@@ -136,7 +139,7 @@ template<class T> void float_funcs() {
         glm::vec<L, bool, Q> m; for (int i = 0; i < L; ++i) m[i] = ((k >> i) & 1) != 0;
         lift<T, Q>("mixb", "vvb", F3(mix), a, b, m); lift<T, Q>("mixb", "vvB", F3(mix), a, b, (k & 1) != 0); });
     un<T>("texClamp", S, F1(clamp)); un<T>("texRepeat", M, F1(repeat)); un<T>("texMirrorClamp", M, F1(mirrorClamp)); un<T>("texMirrorRepeat", M, F1(mirrorRepeat));
-    un<T>("iround", P, F1(iround)); un<T>("uround", P, F1(uround));
+    { std::vector<T> PI; for (T x : P) if (x < T(2147483000.0)) PI.push_back(x); un<T>("iround", PI, F1(iround)); un<T>("uround", PI, F1(uround)); }   // the documented domain: results representable
     // out-parameter functions: modf / frexp / ldexp (hand-written per-length bodies in func_common.inl)
     sweep<T>(M.size(), [&](auto lt, auto qt, size_t k) { LQ(lt, qt); auto a = win<L, T, Q>(M, k);
         { glm::vec<L, T, Q> ip(T(77)); glm::vec<L, T, Q> r = glm::modf(a, ip); glm::vec<L, T, Q> s, si; for (int i = 0; i < L; ++i) { T t = T(55); s[i] = glm::modf(a[i], t); si[i] = t; }
@@ -152,7 +155,7 @@ template<class T> void float_funcs() {
     un<T>("sqrt", S, F1(sqrt)); un<T>("exp", S, F1(exp));
     // trigonometric
     un<T>("radians", M, F1(radians)); un<T>("degrees", M, F1(degrees)); un<T>("sin", M, F1(sin)); un<T>("cos", M, F1(cos)); un<T>("tan", M, F1(tan)); un<T>("asin", U, F1(asin)); un<T>("acos", U, F1(acos));
-    un<T>("atan", M, F1(atan)); bin<0, T>("atan2", M, M, F2(atan)); un<T>("sinh", U, F1(sinh)); un<T>("cosh", U, F1(cosh)); un<T>("tanh", M, F1(tanh)); un<T>("asinh", M, F1(asinh)); un<T>("acosh", GE1, F1(acosh)); un<T>("atanh", U, F1(atanh));
+    un<T>("atan", M, F1(atan)); bin<0, T>("atan2", M, M, F2(atan)); un<T>("sinh", U, F1(sinh)); un<T>("cosh", U, F1(cosh)); un<T>("tanh", M, F1(tanh)); un<T>("asinh", M, F1(asinh)); un<T>("acosh", GE1, F1(acosh)); un<T>("atanh", UO, F1(atanh));
     un<T>("sec", M, F1(sec)); un<T>("csc", P, F1(csc)); un<T>("cot", P, F1(cot)); un<T>("asec", AB1, F1(asec)); un<T>("acsc", AB1, F1(acsc)); un<T>("acot", M, F1(acot));
     un<T>("sech", U, F1(sech)); un<T>("csch", P, F1(csch)); un<T>("coth", P, F1(coth)); { std::vector<T> P01; for (T u : U) if (u > T(0)) P01.push_back(u); P01.push_back(T(1)); un<T>("asech", P01, F1(asech)); } un<T>("acsch", P, F1(acsch)); un<T>("acoth", GE1, F1(acoth));
     // relational
@@ -230,6 +233,7 @@ static void bool_funcs() {
 
 static void body(int argc, char** argv) {
     g_thorough = argc > 2 && std::string(argv[2]) == "thorough";
+    if (argc > 2 && std::string(argv[2]) == "small") g_reps = 9;
     Rng rng(seed_from_env()); g_rng = &rng;
     float_funcs<float>(); float_funcs<double>();
     int_funcs<int>(); int_funcs<unsigned int>(); int_funcs<signed char>(); int_funcs<unsigned char>(); int_funcs<short>(); int_funcs<unsigned short>(); int_funcs<long>(); int_funcs<unsigned long>();
